@@ -246,5 +246,54 @@ func main() {
 		errPart(w, r)
 	case "neg":
 		negPart(w, r)
+	case "trailers":
+		trailersPart(w, r)
 	}
+}
+
+// trailersPart: the target's allow-listed response header and trailer. input ( server-streaming messages outcome-code ) ;
+// impl ( header-as-header trailer-as-header trailer-as-http-trailer http-status )
+func trailersPart(w *vc.Writer, r *vc.Rand) {
+	for _, streaming := range []bool{false, true} {
+		for nmsgs := 0; nmsgs <= 2; nmsgs++ {
+			if !streaming && nmsgs > 1 {
+				continue
+			}
+			for _, code := range []int{0, 8, 5} {
+				if !streaming && nmsgs == 0 && code == 0 {
+					continue // a unary call that ends OK without a message is the target's own protocol error
+				}
+				for _, sse := range []bool{false, true} {
+					if sse && !streaming {
+						continue
+					}
+					conn := vfake.NewConn()
+					for i := 0; i < nmsgs; i++ {
+						conn.Script = append(conn.Script, vfake.RespItem{Kind: vfake.KMsg, Payload: vfake.Flow("m")})
+					}
+					if code == 0 {
+						conn.Script = append(conn.Script, vfake.RespItem{Kind: vfake.KEOF})
+					} else {
+						conn.Script = append(conn.Script, vfake.RespItem{Kind: vfake.KErr, Status: status.New(codes.Code(code), "failed")})
+					}
+					conn.HeaderMD = metadata.Pairs("x-resp", "h")
+					conn.TrailerMD = metadata.Pairs("x-trl", "t")
+					router := vfake.NewFlowRouter(conn, false, streaming)
+					fw := grpcadapter.NewProxyForwarder(grpcadapter.ProxyForwarderOpts{Filter: grpcadapter.NewProxyMDFilter(grpcadapter.ProxyMDFilterOpts{
+						AllowResponseMD: []string{"x-resp"}, AllowTrailerMD: []string{"x-trl"}})})
+					b := webbridge.NewTranscodedHTTPBridge(router, webbridge.TranscodedHTTPBridgeOpts{Forwarder: fw})
+					req := httptest.NewRequest("POST", "/x", strings.NewReader(`{"message":"hi"}`))
+					if sse {
+						req.Header.Set("Accept", "text/event-stream")
+					}
+					rec := httptest.NewRecorder()
+					b.ServeHTTP(rec, req)
+					res := rec.Result()
+					w.Case(vc.L{streaming, nmsgs, code, sse},
+						vc.L{res.Header.Get("X-Resp") == "h", res.Header.Get("X-Trl") == "t", res.Trailer.Get("X-Trl") == "t", rec.Code}, true)
+				}
+			}
+		}
+	}
+	_ = r
 }
